@@ -46,6 +46,9 @@ func (c Config) String() string {
 	if c.Cold {
 		s += " cold-start"
 	}
+	if c.Pipe.EOFWithData {
+		s += " eof-with-data"
+	}
 	return s
 }
 
